@@ -346,6 +346,7 @@ func runC03Ladder(c *Ctx) {
 	c.touch(fnKey(fn))
 	s := newSumm(p, 0)
 	s.EngineAliases = false
+	s.HelperInline = func(f *ssa.Function) bool { return privateHelper(fn, f) && len(findLoops(f)) == 0 }
 	paths, cut := s.Function(fn)
 	if cut != "" {
 		c.undecided("ladder-priority", "combination.CalculatePower", p.FnPos(fn), "summary cut: "+cut)
